@@ -22,6 +22,8 @@
 import Gedcom.Lemmas.EqualLaws
 import Gedcom.Lemmas.Ident
 import Gedcom.Lemmas.CopyDoc
+import Gedcom.Lemmas.DateGuard
+import Gedcom.Lemmas.CopySeq
 import Gedcom.Model.EqualSrc
 namespace Gedcom.C07
 open Gedcom
@@ -238,6 +240,173 @@ theorem same_doc_redirected (ctx : Option (Nat × Str)) (dst : Doc) (next : Nat)
   | some y =>
     have hy := List.mem_reverse.mp (List.mem_of_find?_eq_some hf)
     exact ⟨y.id, by simp, (hfresh y hy).1⟩
+
+/-! ## sequences of copies between documents (round 4)
+
+  `World` = several documents (record list, pointer index, families cache) and the allocation
+  counter; `World.run w ops` performs the `DeepCopy(object, destination)` calls `ops` in order
+  (the driver runs it for `copydoc`).  `w.Below`: every object of `w` was allocated before
+  `w.next` (true of `⟨docs.map DocSt.ofRecords, n⟩` for documents labelled `0 … n-1`). -/
+
+/-- FULL, every sequence of copies.  Source documents are untouched and the destination gains
+    exactly the family records: after the sequence every document is its old record list — the
+    same objects, hence the same text — followed by new, empty FAM records (objects allocated by
+    the sequence); a document that is the destination of no operation is unchanged. -/
+theorem copies_documents_only_grow (w : World) (ops : List CopyOp) (hb : w.Below) :
+    (w.run ops).1.Below ∧ World.Grows w (w.run ops).1 ∧
+    (∀ k, (∀ op ∈ ops, op.dst ≠ k) → (w.run ops).1.docs[k]? = w.docs[k]?) :=
+  run_grows w ops hb
+
+/-- FULL, every sequence.  Every copy has the value of its source (so it is deep-equal to it and
+    renders identically), consists only of objects allocated by its own operation, and the walk
+    writes only to those. -/
+theorem copies_fresh_and_equal (w : World) (ops : List CopyOp) (hb : w.Below) :
+    ∀ e ∈ eventsOf (w.run ops).2,
+      deepEqual e.source.erase e.result.copy.erase = true ∧
+      e.result.copy.erase = e.source.erase ∧
+      (∀ i ∈ e.result.copy.ids, w.next ≤ i ∧ e.start ≤ i ∧ i < e.result.next) ∧
+      (∀ i ∈ e.result.writes, e.start ≤ i ∧ i < e.result.next) ∧
+      (∀ d ∈ w.docs, ∀ i ∈ e.result.copy.ids, i ∉ idsList d.nodes) := by
+  intro e he
+  obtain ⟨h1, _, h3, h4, h5⟩ := (run_events w ops hb).1 e he
+  refine ⟨by rw [h3]; exact Gedcom.deepEqual_refl _, h3, ?_, h5,
+    run_copies_outside_documents w ops hb e he⟩
+  intro i hi
+  have := h4 i hi
+  exact ⟨by omega, this.1, this.2⟩
+
+/-- FULL, every sequence.  Different copies made by a sequence share no object. -/
+theorem copies_pairwise_disjoint (w : World) (ops : List CopyOp) (hb : w.Below) :
+    (eventsOf (w.run ops).2).Pairwise
+      (fun a b => ∀ i ∈ a.result.copy.ids, i ∉ b.result.copy.ids) :=
+  run_disjoint w ops hb
+
+/-- FULL, every sequence.  Copying the same object of a document twice — anywhere in a sequence,
+    into any destinations, the source's own document included — gives results that are deep-equal
+    to each other and to the source and share no object: an earlier copy never changes what a
+    later one copies. -/
+theorem copy_twice (w : World) (ops : List CopyOp) (hb : w.Below) (a b : CopyEvent)
+    (hab : [a, b].Sublist (eventsOf (w.run ops).2))
+    (hsrc : a.op.src = b.op.src) (hnode : a.op.node = b.op.node)
+    (hin : ∃ s x, w.docs[a.op.src]? = some s ∧ findRec a.op.node s.nodes = some x) :
+    deepEqual a.result.copy.erase b.result.copy.erase = true ∧
+    deepEqual a.source.erase a.result.copy.erase = true ∧
+    (∀ i ∈ a.result.copy.ids, i ∉ b.result.copy.ids) :=
+  run_copy_twice w ops hb a b hab hsrc hnode hin
+
+/-- FULL, every sequence.  The pointer index and the families cache of every document stay
+    coherent: `NodeByPointer` answers what a scan of the record list would (the record stored last
+    under the pointer, so a copied family's pointer now finds the new record), and a cached
+    `Families()` slice lists exactly the FAM records, the new ones included. -/
+theorem copies_keep_caches_coherent (w : World) (ops : List CopyOp)
+    (hc : ∀ d ∈ w.docs, d.coherent) : ∀ d ∈ (w.run ops).1.docs, d.coherent :=
+  run_coherent w ops hc
+
+/-- decoded documents start coherent -/
+theorem decoded_coherent (recs : List INode) : (DocSt.ofRecords recs).coherent :=
+  ofRecords_coherent recs
+
+/-- FULL.  Every role node (HUSB / WIFE / CHIL) of a copy is re-created against the destination:
+    the family it belongs to is one of the FAM records its walk added there (objects
+    `n … n + adds - 1`), never a family of the source. -/
+theorem copy_roles_rehomed (ctx : Option (Nat × Str)) (next : Nat) (t c : INode) (n : Nat)
+    (w : List Nat) (adds : List Str) (h : deepCopyIn ctx next t = .ok c n w adds) :
+    ∀ f ∈ roleFamilies ctx n t, n ≤ f ∧ f < n + adds.length :=
+  roleFamilies_new ctx next t c n w adds h
+
+/-- a family with two role nodes copied twice from document 0 into document 1: two events, the
+    second copy's objects follow the first's, document 1 gains two FAM records, document 0 none -/
+example :
+    let fam : INode := .mk 0 (lit "FAM") [] (lit "F1")
+      [.mk 1 (lit "HUSB") (lit "@I1@") [] [], .mk 2 (lit "WIFE") (lit "@I2@") [] []]
+    let w : World := ⟨[DocSt.ofRecords [fam], DocSt.ofRecords []], 3⟩
+    let r := w.run [⟨0, 0, 1⟩, ⟨0, 0, 1⟩]
+    (eventsOf r.2).map (fun e => (e.result.copy.ids, roleFamilies e.ctx (e.start + 3) e.source)) =
+      [([3, 4, 5], [6, 6]), ([7, 8, 9], [10, 10])] ∧
+    r.1.docs.map (fun d => d.nodes.map (·.id)) = [[0], [6, 10]] ∧
+    r.1.docs.map (fun d => d.nodeByPointer (lit "F1")) = [some 0, some 10] ∧
+    r.1.docs.map (·.families) = [[0], [6, 10]] := by decide +kernel
+
+/-! ## the guard, characterised (round 4) -/
+
+/-- EXACT (table level).  `Date.Equals` — the 4×4 table of date.go, which `date_equals_is_the_source`
+    ties to the source — is symmetric on a pair of dates iff the pair is not `asymPair`: both
+    non-zero, the same one-sided constraint (before / before or after / after) and different
+    `Years()`.  Every other combination of constraints is symmetric. -/
+theorem date_equals_symm_iff (a b : PDate) :
+    a.equals b = b.equals a ↔ a.asymPair b = false := PDate.equals_symm_iff a b
+
+/-- SUFFICIENT, syntactic.  The guard holds for every set of plain DATE values: values that do not
+    parse to a valid range (phrases, unparsable text, zero dates — compared by original string) and
+    values neither end of which carries a before / after constraint (exact and about dates,
+    ranges of them).  On them `DateRange.Equals` is "same string, or both valid with the same
+    day / month / year at both ends" (`dateValueEquals_plain`). -/
+theorem guard_of_plain (D : List Str) (h : D.all plainDateValue = true) : dateEquiv D = true :=
+  dateEquiv_of_plain D h
+
+/-- WEAKEST.  Outside the guard the laws fail: for every list `D` of DATE values on which
+    `DateRange.Equals` is not symmetric and transitive there are trees all of whose DATE values lie
+    in `D` on which `DeepEqual` is not symmetric, or which are re-orderings of each other and not
+    deep-equal.  So the set of inputs excluded by the guard is exactly the set on which the
+    finding can be (and, by these witnesses, is) reproduced. -/
+theorem guard_weakest (D : List Str) (h : dateEquiv D = false) :
+    (∃ x y, okNode D x = true ∧ okNode D y = true ∧
+      deepEqual x y = true ∧ deepEqual y x = false) ∨
+    (∃ x y, okNode D x = true ∧ okNode D y = true ∧ Reorder x y ∧ deepEqual x y = false) :=
+  Gedcom.guard_weakest D h
+
+/-- EXACT.  For a list `D` of DATE values: symmetry and permutation invariance of `DeepEqual` hold
+    for all trees over `D` if and only if the guard holds for `D`. -/
+theorem laws_iff_guard (D : List Str) :
+    dateEquiv D = true ↔
+      ((∀ a b, okNode D a = true → okNode D b = true → deepEqual a b = deepEqual b a) ∧
+       (∀ a b, okNode D a = true → okNode D b = true → Reorder a b → deepEqual a b = true)) := by
+  constructor
+  · intro hD
+    exact ⟨fun a b ha hb => deepEqual_symm D hD a b ha hb,
+      fun a b ha hb h => deepEqual_perm D hD a b h ha hb⟩
+  · intro ⟨hs, hp⟩
+    cases hD : dateEquiv D
+    · exfalso
+      rcases Gedcom.guard_weakest D hD with ⟨x, y, hx, hy, h1, h2⟩ | ⟨x, y, hx, hy, hr, h1⟩
+      · rw [hs x y hx hy, h2] at h1; cases h1
+      · rw [hp x y hx hy hr] at h1; cases h1
+    · rfl
+
+/-- PARTIAL (guard).  The *shallow* `Equals` is symmetric for every kind of node — RESI / EVEN
+    with or without DATE children included (their undated form compares the children deeply). -/
+theorem equals_symm (D : List Str) (hD : dateEquiv D = true) (a b : Node)
+    (ha : okNode D a = true) (hb : okNode D b = true) : equalsShallow a b = equalsShallow b a := by
+  apply Bool.eq_iff_iff.mpr
+  rw [equalsShallow_eq, equalsShallow_eq]
+  exact ⟨equalsSpec_symm_of_ok D hD a b ha hb, equalsSpec_symm_of_ok D hD b a hb ha⟩
+
+/-- PARTIAL (guard).  The shallow `Equals` is transitive through a middle node without DATE
+    children (needed for RESI / EVEN only): on undated RESI / EVEN nodes — whose equality depends
+    on their children — `Equals` is an equivalence.  Through a dated middle node it is not
+    (RESI{1900} = RESI{1900, 1901} = RESI{1901}: C08's finding), while `DeepEqual` is. -/
+theorem equals_trans_undated (D : List Str) (hD : dateEquiv D = true) (a b c : Node)
+    (ha : okNode D a = true) (hb : okNode D b = true) (hc : okNode D c = true)
+    (hund : a.rule = .resi ∨ a.rule = .even → b.dates = [])
+    (h1 : equalsShallow a b = true) (h2 : equalsShallow b c = true) :
+    equalsShallow a c = true := by
+  rw [equalsShallow_eq] at *
+  exact equalsSpec_trans_undated D hD a b c ha hb hc hund h1 h2
+
+/-- the plain class is not empty, excludes the one-sided constraints, and the asymmetric pairs are
+    real: before 1900 / before 1901 -/
+example : plainDateValue (lit "3 Sep 1943") = true ∧ plainDateValue (lit "Abt. 1943") = true ∧
+    plainDateValue (lit "(unknown)") = true ∧ plainDateValue (lit "Bet. 1940 and 1950") = true ∧
+    plainDateValue (lit "Bef. 1900") = false ∧ plainDateValue (lit "Aft. 3 Sep 1943") = false := by
+  decide +kernel
+example : PDate.asymPair ⟨0, 0, 1900, .before, false⟩ ⟨0, 0, 1901, .before, false⟩ = true ∧
+    PDate.asymPair ⟨0, 0, 1900, .before, false⟩ ⟨0, 0, 1901, .exact, false⟩ = false := by
+  decide +kernel
+/-- undated RESI nodes whose PLAC children are permuted are `Equals` -/
+example : equalsShallow
+    (.mk (lit "RESI") [] [] [.mk (lit "PLAC") (lit "a") [] [], .mk (lit "PLAC") (lit "b") [] []])
+    (.mk (lit "RESI") [] [] [.mk (lit "PLAC") (lit "b") [] [], .mk (lit "PLAC") (lit "a") [] []]) = true := by
+  decide +kernel
 
 /-! ## the Go source, translated (go/ast → Generated/EqualSrc.lean → these theorems) -/
 
